@@ -97,6 +97,7 @@ pub fn gen(tier: &str, seed: u64) -> Gen {
     let directed = [
         "rec $a [rec x]", "rec hello; rec $a\nrec [rec q] \"s $a\"", "rec {a b} $b(1)", "rec a;rec b", "rec \\$a \\[x\\]", "rec {*}{p q} r",
         "rec x $e y", "rec \"q [rec i] r\"", "rec a {b c} d e", "rec k v k w", "# c d", "rec a\n# b c\nrec d",
+        " 5 ", "\t7\n", " 0x10", "+3 ", "1e2 ", " 2.50",
     ];
     for i in 0..nview {
         let s = if i < directed.len() { directed[i].to_string() } else {
@@ -109,15 +110,16 @@ pub fn gen(tier: &str, seed: u64) -> Gen {
             s
         };
         let q = molt::types::Value::from(vec![molt::types::Value::from(s.as_str())]);
-        let views = ["catch {llength $s}", "catch {dict size $s}", "catch {lindex $s 0}", "catch {foreach x $s {}}", "catch {incr s 0}", "string length $s"];
+        let views = ["catch {llength $s}", "catch {dict size $s}", "catch {lindex $s 0}", "catch {foreach x $s {}}", "catch {incr s 0}", "string length $s",
+            "catch {incr n0 $s}", "catch {string range abcdef $s 4}", "catch {expr {$s + 1}}", "catch {lindex {a b c d e f g h} $s}"];
         let mut pre = format!("{}; set s {}", PRELUDE, q.as_str());
         for _ in 0..(1 + rng.below(3)) {
             pre.push_str("; ");
             pre.push_str(views[rng.below(views.len())]);
         }
-        cases.push(case(0, &[pre.as_str(), "if 1 $s", "rec again; if 1 $s"], &["a", "b"]));
+        cases.push(case(0, &[pre.as_str(), "if 1 $s", "rec again {*}$s \"$s\" $s; if 1 $s"], &["a", "b"]));
     }
-    fams.push(("script values evaluated after list / dictionary / integer views of the same value (1-3 views, then the script twice)".to_string(), nview, false));
+    fams.push(("script values (and padded numbers) evaluated, expanded with {*} and substituted after list / dictionary / integer / index views of the same value (1-3 views)".to_string(), nview, false));
     (cases, fams)
 }
 
